@@ -62,9 +62,9 @@ def _hyper_models(backend):
                                     dict(moduli=lambda p: (2 * (p["C10"] + p["C01"]), None), isochoric=True))
     S["blatz_ko"] = (lambda r: dict(mu=U(r, 0.5, 2)), dict(moduli=lambda p: (p["mu"], None)))
     S["van_der_waals"] = (lambda r: dict(mu=U(r, 0.5, 2), limit=U(r, 5, 10), a=U(r, 0, 0.3), beta=U(r, 0.05, 0.9)),
-                          dict(moduli=lambda p: (p["mu"], None), isochoric=True, moduli_tol=2e-3))
+                          dict(moduli=lambda p: (p["mu"], None), isochoric=True, moduli_tol=1e-2))
     S["van_der_waals[beta=0]"] = (lambda r: dict(mu=U(r, 0.5, 2), limit=U(r, 5, 10), a=U(r, 0, 0.3), beta=0.0),
-                                  dict(moduli=lambda p: (p["mu"], None), isochoric=True, moduli_tol=2e-3, fun="van_der_waals"))
+                                  dict(moduli=lambda p: (p["mu"], None), isochoric=True, moduli_tol=1e-2, fun="van_der_waals"))
     S["storakers"] = (lambda r: dict(mu=[U(r, 0.5, 1.5), U(r, 0.1, 0.6)], alpha=[U(r, 1.5, 2.5), U(r, -2, -1)], beta=[U(r, 0.3, 1), U(r, 1, 2)]),
                       dict(moduli=lambda p: (sum(p["mu"]), sum(2 * m * (1 / 3 + b) for m, b in zip(p["mu"], p["beta"]))),
                            reg={"tt": "tt-eig", "jax": "jax-1e-4"}))
